@@ -347,6 +347,27 @@ def cases():
     dflt("i64-min", {"type": "integer", "format": "int64"}, -9223372036854775808)
     dflt("u64-max", {"type": "integer", "format": "uint64"}, 18446744073709551615)
     dflt("string-escapes", S, "a\"b\\c\n{d}é\u0000")
+    # boundary values that reach output_value (not the generic default_u64 / default_i64 functions)
+    U64 = {"type": "integer", "format": "uint64"}
+    BIG, I64MAX1 = 18446744073709551615, 9223372036854775808
+    dflt("u64max-in-vec", {"type": "array", "items": U64}, [BIG])
+    dflt("u64max-in-tuple", {"type": "array", "items": [U64, U64], "minItems": 2, "maxItems": 2}, [0, BIG])
+    dflt("u64-above-i64-in-option", {"type": ["integer", "null"], "format": "uint64"}, I64MAX1)
+    dflt("u64max-in-map", {"type": "object", "additionalProperties": U64}, {"k": BIG})
+    dflt("u64max-in-struct", obj({"a": U64}, ["a"]), {"a": BIG})
+    dflt("u64max-in-variant", {"oneOf": [obj({"a": U64}, ["a"], additionalProperties=False), obj({"b": B}, ["b"], additionalProperties=False)]}, {"a": BIG})
+    dflt("nzu64max-in-vec", {"type": "array", "items": {"type": "integer", "format": "uint64", "minimum": 1}}, [BIG, 1])
+    dflt("i64min-in-vec", {"type": "array", "items": I}, [-9223372036854775808, 9223372036854775807])
+    dflt("two53-in-vec", {"type": "array", "items": I}, [9007199254740993, -9007199254740993])
+    dflt("float-limits-in-vec", {"type": "array", "items": N}, [1e308, 5e-324, -0.0, 1e3])
+    dflt("float-limits-bare", N, 1e308)
+    dflt("float-negzero", N, -0.0)
+    dflt("float-denormal", N, 5e-324)
+    dflt("string-10k", S, "x" * 10000)
+    dflt("string-odd-in-vec", {"type": "array", "items": S}, ["", "\u00e9\u65e5\u672c\U0001F600", "a\"b\\c{d}\n\t", "}}{{{0}"])
+    add("default-def-newtype-u64max", "defaults", root({"N": dict(U64, default=BIG), "P": obj({"q": ref("N")})}),
+        note="named integer newtype whose definition default is u64::MAX")
+    add("default-def-newtype-i64min", "defaults", root({"N": {"type": "integer", "default": -9223372036854775808}, "P": obj({"q": ref("N")})}))
     add("default-ref", "defaults", root({"Q": obj({"a": I}, ["a"]), "P": obj({"p": dict(ref("Q"), default={"a": 2})})}))
     add("default-ref-allof", "defaults", root({"Q": obj({"a": I}, ["a"]), "P": obj({"p": {"allOf": [ref("Q")], "default": {"a": 2}}})}))
     add("default-def-struct", "defaults", root({"Q": obj({"a": I, "b": S}, ["a"], default={"a": 2})}))
